@@ -42,3 +42,14 @@ func VerifTrimNotifications(d DB, retention time.Duration, clock time2.Clock) er
 		notificationsRetentionTime: retention, clock: clock, log: slog.Default()}
 	return t.trimNotifications()
 }
+
+// VerifMemTableSize, when non-zero, replaces Pebble's 32 MiB memtable (harnesses open
+// thousands of short-lived databases).
+var VerifMemTableSize uint64
+
+func verifMemTableSize(def uint64) uint64 {
+	if VerifMemTableSize != 0 {
+		return VerifMemTableSize
+	}
+	return def
+}
